@@ -11,14 +11,14 @@ Failed(r) ==
             ELSE IF ~Vm!Representable(r.val) THEN {}                \* no cell can hold it: nothing is promised
             ELSE IF Has(r.out, "err") THEN {"serialize_raised"}
             ELSE Clause("encoding_ok", r.out.tree = Vm!EncStack(r.val))
-                 \cup Clause("caller_values_modified", r.out.after = r.val)
+                 \cup Clause("caller_values_modified", Vm!SameSeq(r.out.after, r.val))
                  \cup Clause("second_serialisation_differs", r.out.tree2 = r.out.tree)
       [] r.op = "vm_parse" ->
             IF ~Vm!Representable(r.val) THEN {}
             ELSE IF Has(r, "err") THEN {"parse_raised"}
             ELSE LET want == [i \in 1..Len(r.val) |-> Vm!Norm(r.val[i])] IN
-                 Clause("roundtrip_values_differ", r.back = want)
-                 \cup Clause("second_parse_differs", r.back2 = want)
+                 Clause("roundtrip_values_differ", Vm!SameSeq(r.back, want))
+                 \cup Clause("second_parse_differs", Vm!SameSeq(r.back2, want))
                  \cup Clause("first_result_changed_by_second_parse", r.back_again = TRUE)
 TInit == KitInit
 TNext == KitNext(Failed)
